@@ -376,6 +376,13 @@ func (p *statsProcessor) extractSegmentStatsResults(iqr *iqr.IQR) (*iqr.IQR, err
 			return nil, utils.TeeErrorf("qid=%v, statsProcessor.extractSegmentStatsResults: cannot set iqr stats results; err=%v", iqr.GetQID(), err)
 		}
 	} else {
+		if p.hasFinalResult {
+			// The final result is extracted again (GetFinalResultIfExists()
+			// after a Rewind()). CreateSegmentStatsResults() folds the map
+			// it is given into p.searchResults; that already happened at the
+			// first extraction and must not happen twice.
+			segStatsMap = nil
+		}
 		err := iqr.CreateSegmentStatsResults(p.searchResults, segStatsMap, p.options.MeasureOperations)
 		if err != nil {
 			return nil, utils.TeeErrorf("qid=%v, statsProcessor.extractSegmentStatsResults: cannot create segment stats results; err=%v", iqr.GetQID(), err)
